@@ -282,6 +282,17 @@ let run_case (env : mdesc array) (envl : mdesc list) (line : string) : string op
          Buffer.add_string b (Printf.sprintf "W %d %d %d"
                                 (if WF.wf_msg envl m then 1 else 0) (if Canon.canon_msg envl m then 1 else 0)
                                 (if Canon.env_ok envl then 1 else 0))
+       | "UNORM" ->
+         (* model only: is the normalisation (Impl/Norm.v) of what unpack returns in the normal form of the
+            round-trip theorem?  N - : unpack failed;  N <canon (norm m)> <canon m> *)
+         let d = next_int t in
+         let bytes = bytes_of_hex (next t) in
+         (match Unpack.unpack_top envl (nat_of_int d) bytes with
+          | Ok m ->
+            Buffer.add_string b (Printf.sprintf "N %d %d"
+                                   (if Canon.canon_msg envl (Norm.norm_msg envl m) then 1 else 0)
+                                   (if Canon.canon_msg envl m then 1 else 0))
+          | Err _ -> Buffer.add_string b "N -")
        | "LEDGER" ->
          (* the verified allocation monitor (Impl/Ledger.v, Proofs/LedgerSound.v) on a trace of UNPACKT events *)
          let evs = ref [] in
